@@ -6,7 +6,13 @@ here = os.path.dirname(os.path.abspath(__file__))
 root = os.path.dirname(here)
 props = [json.loads(l)['id'] for l in open(os.path.join(root, 'properties.jsonl'))]
 table = json.load(open(os.path.join(here, 'manifest_table.json')))
-hooks_commits = table.get('_hook_commits', [])
+import subprocess
+try:
+    hooks_commits = subprocess.run(['git', '-C', '/repo', 'log', '--reverse', '--format=%h', '--', 'verif_contracts.go'], capture_output=True, text=True).stdout.split()
+except Exception:
+    hooks_commits = []
+if not hooks_commits:
+    hooks_commits = table.get('_hook_commits', [])
 checks = []
 na = []
 for p in props:
